@@ -26,7 +26,16 @@ RULE += (' '
          'second finaliser: the generator of an earlier abandoned connection '
          "is closed in the middle of the closing handshake; C08's scenario "
          'and oracle).')
-SHRINK_LISTS = [('schedule', 'points')]
+RULE += (' `race`: race-directed sweep - recording runs log every read / '
+         'write of a field of the connection state with thread and yield '
+         'point; the points where two threads touch one field (before / '
+         'after a write, after a read) are candidate pre-emption *sites* '
+         '(thread, file:line, occurrence), and every set of up to three '
+         'site rules x target thread x initial order is run (complete for '
+         'the bases in RACE_FULL3 at the quick tier, capped sample of pairs '
+         'for the rest; thorough: triples for every base, capped at 150 000 '
+         'per base).')
+SHRINK_LISTS = [('schedule', 'points'), ('schedule', 'rules')]
 EXPECTED_PROBES = ['old_generator_finalised_while_closing', 'stalled_writes', 'close_vs_send', 'close_vs_close', 'close_vs_loop_echo',
                    'close_vs_auto_pong', 'close_vs_auto_ping',
                    'loser_got_websocket_error',
@@ -84,6 +93,16 @@ BASES = [
     {'name': 'compressed_close_vs_text', 'threads': [[_CL], [_t(2, _TXT),
                                                              _t(2, _BIN)]],
      'compress': True},
+    # a send / a second close() by the thread that closed, after its close()
+    # returned, while the event loop completes the handshake: whatever the
+    # interleaving did to the flags, the connection must stay closed to them
+    {'name': 'close_text_vs_loop_echo', 'threads': [[_CL, _t(1, _TXT)]],
+     'loop': ['close']},
+    {'name': 'close_close_vs_loop_echo', 'threads': [[_CL, _CL2]],
+     'loop': ['close']},
+    {'name': 'close_vs_text_text_loop_echo', 'threads': [[_CL], [_t(2, _TXT),
+                                                                _t(2, _BIN)]],
+     'loop': ['close']},
 ]
 SLOT1 = 4000
 FSLOT = 1200
@@ -94,6 +113,26 @@ def _info(b):
     if b not in _INFO:
         _INFO[b] = T.default_steps(BASES[b])
     return _INFO[b]
+
+
+# race-directed sweep (family `race`): rule sets over the sites where two
+# threads touch the same field of the connection state (see _threads.py)
+RACE_FULL3 = ['close_text_vs_loop_echo', 'close_close_vs_loop_echo']
+_RACE = {}
+
+
+def _race(b, tier):
+    key = (b, tier)
+    if key not in _RACE:
+        base = BASES[b]
+        cands = T.race_candidates(base)
+        if tier == 'quick':
+            depth = 3 if base['name'] in RACE_FULL3 else 2
+            cap = 40000 if depth == 3 else 1200
+        else:
+            depth, cap = 3, 150000
+        _RACE[key] = (cands, T.race_schedules(base, cands, depth, cap))
+    return _RACE[key]
 
 
 FULL2 = ['close_vs_close', 'close_vs_auto_ping', 'close_vs_text']      # bases whose two-pre-emption sweep is complete (thorough)
@@ -118,6 +157,8 @@ def plan(tier):
                 ('stall', 40000),
                 ('freeze', len(BASES) * FSLOT),
                 ('held_generator', 6000),
+                ('race', sum(len(_race(b, tier)[1])
+                             for b in range(len(BASES)))),
                 ('sweep2', 60000),
                 ('random', 120000)]
     return [('sweep1', len(BASES) * SLOT1),
@@ -126,6 +167,7 @@ def plan(tier):
             ('stall', 1500),
             ('freeze', len(BASES) * FSLOT),
             ('held_generator', 400),
+            ('race', sum(len(_race(b, tier)[1]) for b in range(len(BASES)))),
             ('sweep2', 3000 if q else 150000),
             ('random', 2500 if q else 120000)]
 
@@ -215,6 +257,15 @@ def make_case(family, i, rng, tier):
                 return None
             case['schedule'] = {'kind': 'preempt',
                                 'points': [[1, 1], [step, tid]]}
+        return case
+    if family == 'race':
+        for b in range(len(BASES)):
+            scheds = _race(b, tier)[1]
+            if i < len(scheds):
+                break
+            i -= len(scheds)
+        case = copy.deepcopy(BASES[b])
+        case['schedule'] = copy.deepcopy(scheds[i])
         return case
     if family == 'base_random':
         # seeded random-walk / PCT schedules over the hand-written bases
@@ -450,6 +501,11 @@ def evidence_extra(tier, agg):
                                          'points for the bases %s'
                                          % (FULL2,),
                           'sweep2': 'pairs of pre-emption points (sampled)',
+                          'race': 'sets of <= 3 site rules over the racing '
+                                  'sites of each base: %s' % (
+                                      {BASES[b]['name']: [len(_race(b, tier)[0]),
+                                                          len(_race(b, tier)[1])]
+                                       for b in range(len(BASES))},),
                           'random': 'random-walk and PCT schedulers'},
             'exhaustive_at_bound': {b['name']: _info(i)[0] * (_info(i)[1] + 1)
                                     for i, b in enumerate(BASES)}}
